@@ -578,6 +578,23 @@ func main() {
 			s.end()
 			evals += s.evals
 		}
+		// export time across a second boundary: the process is created half-way through a second and
+		// sends again 0.6 s later, in the next second (an export time derived from "start second + whole
+		// seconds elapsed" would still show the old one)
+		for _, proto := range []string{"tcp", "udp"} {
+			for time.Now().Nanosecond()/1e6 < 450 || time.Now().Nanosecond()/1e6 > 550 {
+				time.Sleep(5 * time.Millisecond)
+			}
+			s := newSession(w, proto, r.Uint32(), 0, dist)
+			ies := []*entities.InfoElement{u8, str}
+			s.send(tmplSet(256, ies))
+			for k := 0; k < 3; k++ {
+				time.Sleep(300 * time.Millisecond)
+				s.send(dataSet(r, 256, ies, 1+r.Intn(3), 10, 60000))
+			}
+			s.end()
+			evals += s.evals
+		}
 	case "c09":
 		nsess, nmsg := 6, 60
 		if thorough {
